@@ -54,6 +54,13 @@ Definition no_double (d : dirst) : bool :=
                     | Some (u, true) => negb (valid_name u) || negb (has_entry d (u ++ str ".user"))
                     | _ => true end) d.
 
+(* the operations the property exempts: removing or demoting an administrator *)
+Definition unseats_admin (d : dirst) (o : op) : bool :=
+  match o with
+  | OpRemove u | OpSetAdmin u false => has_entry d (u ++ str ".admin")
+  | _ => false
+  end.
+
 Fixpoint monitor (t : tables) (c : config) (cur : dirst) (wasvalid : bool) (steps : list hstep) (i : N) : option N :=
   match steps with
   | [] => None
@@ -68,7 +75,10 @@ Fixpoint monitor (t : tables) (c : config) (cur : dirst) (wasvalid : bool) (step
         | _, _ => true
         end
         (* from a valid store: completed operations leave no double files and a clean work area *)
-        && (negb (wasvalid && tmp_clean cur) || (tmp_clean next && no_double next)) in
+        && (negb (wasvalid && tmp_clean cur) || (tmp_clean next && no_double next))
+        (* from a valid store: whatever does not remove or demote an administrator - successful or
+           failed - leaves a valid store *)
+        && (negb wasvalid || unseats_admin cur o || valid_dir c' next) in
       if ok then monitor t c' next (valid_dir c' next) r (i + 1) else Some i
   end.
 
